@@ -71,7 +71,8 @@ def _gen_tree(rnd, depth, allowed, budget):
         return _gen_leaf(rnd, allowed)
     n = rnd.randint(1, 3)
     if rnd.random() < 0.5:
-        return {"dict": [[rnd.choice("abcdefgh") + str(i), _gen_tree(rnd, depth - 1, allowed, budget)] for i in range(n)]}
+        return {"dict": [[rnd.choice(["a", "b", "c", "d", "e", "_r", "_pad", "x_"]) + str(i),
+                          _gen_tree(rnd, depth - 1, allowed, budget)] for i in range(n)]}
     return {"list": [_gen_tree(rnd, depth - 1, allowed, budget) for i in range(n)]}
 
 
@@ -83,8 +84,13 @@ def configs(tier, seed):
         acc = rnd.choice(["r", "w", "rw", "rw"])
         allowed = [a for a, m in ACTIONS.items() if (("r" not in m) or "r" in acc) and (("w" not in m) or "w" in acc)]
         tree = _gen_tree(rnd, 3, allowed, [6 if tier == "quick" else 9])
-        style = rnd.choice(["arg", "arg", "annot"]) if "dict" in tree else "arg"
-        out.append({"acc": acc, "tree": tree, "style": style})
+        style = rnd.choice(["arg", "arg", "annot", "annot_sub"]) if "dict" in tree else "arg"
+        cfg = {"acc": acc, "tree": tree, "style": style}
+        if style == "annot_sub":
+            # the register class re-declares its annotations in a SUBCLASS of another annotation-defined register
+            # whose instance was created first (per-class state must not leak through inheritance)
+            cfg["base_tree"] = {"dict": [["base0", _gen_leaf(rnd, allowed)], ["base1", _gen_leaf(rnd, allowed)]]}
+        out.append(cfg)
     # access-compatibility rejection table (executed, not solved)
     for facc in ("R", "W", "RW", "ResRAW0"):
         for racc in ("r", "w", "rw"):
@@ -117,6 +123,11 @@ def _make_reg(cfg):
     fields = _to_fields(cfg["tree"])
     if cfg["style"] == "annot":
         cls = type("AnnotReg", (csr.Register,), {"__annotations__": dict(fields)}, access=cfg["acc"])
+        return cls()
+    if cfg["style"] == "annot_sub":
+        base = type("BaseReg", (csr.Register,), {"__annotations__": dict(_to_fields(cfg["base_tree"]))}, access=cfg["acc"])
+        base()          # the base class is instantiated first
+        cls = type("DerivedReg", (base,), {"__annotations__": dict(fields)})
         return cls()
     return csr.Register(fields, access=cfg["acc"])
 
@@ -214,11 +225,15 @@ def check(cfg, out, stats):
                                    "query": "table", "cfg": cfg, "stimulus": [], "prefix": 0, "k": 0, "detail": {}})
         return
     out.extra = {"structural_checks": 1}
-    if not _structural(cfg):
+    try:
+        ok = _structural(cfg)
+    except (KeyError, IndexError, AttributeError):
+        ok = False          # a declared field does not exist in the instantiated register
+    if not ok:
         from ..e1 import cfg_key
         out.violations.append({"key": f"width-or-order@{cfg_key(cfg)}",
-                               "what": f"C11 register width is not the sum of field widths, or iteration order is "
-                                       f"not declaration order, for {cfg_key(cfg)}",
+                               "what": f"C11 a declared field is missing, the register width is not the sum of field "
+                                       f"widths, or iteration order is not declaration order, for {cfg_key(cfg)}",
                                "query": "structural", "cfg": cfg, "stimulus": [], "prefix": 0, "k": 0, "detail": {}})
         return
     run_queries(sys.modules[__name__], cfg, out, stats, cosim_cycles=8)
@@ -229,5 +244,8 @@ def replay(v):
     if v["query"] == "table":
         return not _table(v["cfg"])
     if v["query"] == "structural":
-        return not _structural(v["cfg"])
+        try:
+            return not _structural(v["cfg"])
+        except (KeyError, IndexError, AttributeError):
+            return True
     return _replay(sys.modules[__name__], v)
